@@ -15,6 +15,7 @@ mod c12;
 mod c14;
 mod c16;
 mod c17;
+mod c18;
 mod c19;
 mod olpc;
 mod c20;
@@ -24,6 +25,7 @@ mod jsongen;
 mod jsongen_parse;
 mod meta;
 mod model;
+mod probe;
 mod proto;
 mod rng;
 
@@ -71,6 +73,9 @@ fn main() {
     }
     // panics of the code under test are caught per case; keep stderr quiet
     std::panic::set_hook(Box::new(|_| {}));
+    if prop == "probe" {
+        return probe::run();
+    }
     match prop.as_str() {
         "C03" => c03::run(&cfg),
         "C04" => c04::run(&cfg),
@@ -89,6 +94,7 @@ fn main() {
         "C14" => c14::run(&cfg),
         "C16" => c16::run(&cfg),
         "C17" => c17::run(&cfg),
+        "C18" => c18::run(&cfg),
         "C19" => c19::run(&cfg),
         "C20" => c20::run(&cfg),
         p => {
